@@ -28,12 +28,63 @@ impl Prop for C13 {
     }
     fn budget(&self, tier: Tier) -> u64 {
         match tier {
-            Tier::Quick => 100_000,
+            Tier::Quick => 150_000,
             Tier::Thorough => 3_000_000,
         }
     }
     fn required_labels(&self) -> Vec<&'static str> {
         vec!["two_assignments", "unapplied_seteid_other_eid", "eid_reports_checked", "nontrivial"]
+    }
+    fn enumerate(&self, tier: Tier, shard: usize, nshards: usize, f: &mut dyn FnMut(Case)) {
+        use crate::calls::*;
+        use crate::refmodel::{build_control_request, fix_pec};
+        let a = 0x23u8;
+        let s = 0x34u8;
+        let cfg = CtxCfg { addr: a, msg_types: vec![0x7E], vendors: vec![(0, 0x1234, 0xAB)] };
+        let proc_ = |bytes: Vec<u8>| Op::Process { bytes, cap: 64, fill: 0 };
+        let set = |op: u8, eid: u8| build_control_request(a, s, a, s, 1, 0x01, &[op, eid]);
+        let mut bad_pec = set(0, 0x66);
+        let n = bad_pec.len();
+        bad_pec[n - 1] ^= 0x40;
+        let mut wrong_len = build_control_request(a, s, a, s, 1, 0x01, &[0, 0x6A, 0]);
+        fix_pec(&mut wrong_len);
+        let alphabet: Vec<Op> = vec![
+            proc_(set(0, 0x11)),
+            proc_(set(1, 0x22)),
+            proc_(set(3, 0x33)),
+            proc_(set(2, 0x44)),
+            proc_(set(4, 0x55)),
+            proc_(bad_pec),
+            Op::Decode { bytes: set(0, 0x77) },
+            proc_(build_control_request(a, s, a, s, 2, 0x02, &[])),
+            Op::SetReqEid(0x88),
+            Op::SetRespEid(0x99),
+            proc_(build_control_request(a, s, a, s, 3, 0x04, &[0xFF])),
+            proc_(wrong_len),
+            Op::Encode { call: EncCall::RespGetEndpointId { cc: 0, etype: 0, idtype: 0, fairness: false }, dest: s },
+        ];
+        let k = alphabet.len();
+        let maxlen = if tier == Tier::Thorough { 5 } else { 4 };
+        let mut idx = 0usize;
+        for len in 1..=maxlen {
+            let total = k.pow(len as u32);
+            for code in 0..total {
+                idx += 1;
+                if idx % nshards != shard {
+                    continue;
+                }
+                let mut c = code;
+                let mut ops = Vec::with_capacity(len);
+                for _ in 0..len {
+                    ops.push(alphabet[c % k].clone());
+                    c /= k;
+                }
+                f(Case { cfg: cfg.clone(), ops });
+            }
+        }
+    }
+    fn enumerated_desc(&self, tier: Tier) -> Option<String> {
+        Some(format!("bounded-exhaustive histories: every sequence of length 1..{} over a 13-letter alphabet (Set EID with operations Set, Force, SetDiscoveredFlag, Reset and reserved byte 0x04, each carrying a different EID; a Set with a wrong PEC; a decode-only Set; a Set with a wrong data length; Get EID; the two accessors; another request; a direct Get Endpoint ID response encode)", if tier == Tier::Thorough { 5 } else { 4 }))
     }
     fn run(&self, case: &Case) -> CaseResult {
         let mut r = CaseResult::default();
